@@ -122,7 +122,7 @@ def optionalDoRead (dc : Decomp) (c : Col) (pg : PageMeta) : Nat → Src → Int
       let buf := { buf with defs := buf.defs ++ defs.take nv.toNat }
       let l := l + l2
       if l > data.length then .error .panic else
-      let n := (defs.filter (· = c.maxDef)).length
+      let n := ((defs.take nv.toNat).filter (· = c.maxDef)).length     -- only the first NumValues levels belong to the page
       optionalDoRead dc c pg fuel s (nRead + ((s.pos - p0 : Nat) : Int)) buf (out ++ data.drop l) (sizes ++ [(n : Int)])
     else .ok (buf, out, sizes, s)
 
